@@ -383,7 +383,7 @@ def loop_traces(ctx, pid, insts, consts, name="clt"):
     env = dict(os.environ, NUMBA_DISABLE_JIT="1", PYTHONPATH=harness.VERIF, VERIF_REPO=harness.REPO)
     env.pop("NUMBA_CACHE_DIR", None)
     r = subprocess.run(["/venv/bin/python", "-m", "vt.looptrace_constrain", ip, op], env=env, capture_output=True,
-                       text=True, cwd=harness.VERIF, timeout=1800)
+                       text=True, cwd=harness.VERIF, timeout=5400)
     if r.returncode == 3:
         # loop heads / locals not found, or arithmetic off Constrain's integer lattice: the kernel was rewritten.
         # Conformance drift, not a verdict on the properties (the replay legs judge what the kernel returns).
